@@ -137,6 +137,11 @@ func (r *recNodes) List() ([]*v1.Node, error) {
 	return nodes, err
 }
 
+type failureNote struct {
+	scan, life int
+	what       string
+}
+
 type Supervisor struct {
 	w     *World
 	spec  RunSpec
@@ -154,6 +159,7 @@ type Supervisor struct {
 	lock  map[string]*lockModel
 	stopped bool
 	everTainted map[string]bool
+	lastFailure map[string]failureNote
 }
 
 func (s *Supervisor) groupCfg(name string) *GroupCfg {
@@ -224,6 +230,7 @@ func (s *Supervisor) startController() (ok bool, rejected bool) {
 	w.lastGet = map[string]*v1.Node{}
 	s.mem = map[string]*sizeMemory{}
 	s.lock = map[string]*lockModel{}
+	s.lastFailure = map[string]failureNote{}
 	s.lifeScans = 0
 	ngs, provCfgs, problems, err := LoadOptions(s.text)
 	if err != nil || len(problems) > 0 {
